@@ -17,7 +17,7 @@ LIMITS = {'quick': dict(max_inputs=5, max_gates=16), 'thorough': dict(max_inputs
 def cases(draw, tier):
     lim = LIMITS[tier]
     nl = draw(gen.netlists(min_inputs=0, max_inputs=lim['max_inputs'], max_gates=lim['max_gates'],
-                           max_arity=5, styles=('plain', 'digits', 'mixed'), max_outputs=4, const_operands=(0, 0, 2, 1)))
+                           max_arity=5, wide_arity=13, styles=('plain', 'digits', 'mixed'), max_outputs=4, const_operands=(0, 0, 2, 1)))
     wrap = draw(st.integers(0, 3)) == 0 and len(nl['gates']) > 0
     if wrap:
         # tautological top gate over the (deep) cone of some gate: every row is satisfiable and every
@@ -150,5 +150,5 @@ SPEC = {
     'assumptions': ['own DPLL (vlib/sat.py) decides CNF + fixed inputs; z3-backed pysat stand-in used only for is_circuit_satisfiable, its models are re-checked'],
     'subs': [Sub('tseytin', cases, check_tseytin, {'quick': 2500, 'thorough': 200000})],
     'required_classes': {'tseytin': ['nary_xor', 'tautological_top', 'sel:sub', 'sel:empty', 'LR_gate',
-                                     'constant', 'cmp_gate', 'dup_operand']},
+                                     'constant', 'cmp_gate', 'dup_operand', 'nary>=9']},
 }
